@@ -286,6 +286,28 @@ def run_case(case):
                             f", child {[c[2] for c in case['child'] if c[:2] == [i, k]]}"
                             f", parent again {[c[2] for c in case['parent2'] if c[:2] == [i, k]]})",
                             bucket="p2")
+        # ---- writes the format refuses leave no trace
+        import struct
+        for (i, k), want in sorted(model.items())[:200]:
+            f = eff[insts[i]][k]
+            if f == "x":
+                bad = 1e30
+            else:
+                n = len(struct.unpack(f, bytes(struct.calcsize(f))))
+                bad = 2**70 if n == 1 else tuple([1] * (n - 1) + [2**70])
+            try:
+                setattr(devs[i], f"v{k}", bad)
+            except (struct.error, OverflowError):
+                pass
+            else:
+                # accepted after all (a float format): write the value back
+                setattr(devs[i], f"v{k}",
+                        tuple(want) if isinstance(want, list) else want)
+            got = norm(getattr(devs[i], f"v{k}"))
+            if got != want:
+                return fail(f"parent reads {got!r} for device {i} variable "
+                            f"v{k}:{f} after a write of {bad!r} was refused, "
+                            f"it held {want!r}", bucket="refused-write")
     finally:
         if proc is not None and proc.is_alive():
             proc.kill()
